@@ -204,7 +204,10 @@ def gen_run(r, big=False, mixed=None):
   ops.append(['D'])
   ops.append(['A', 0])
   ops.append(['A', r.choice([1, 2, 3, 4])])
-  return {'kind': 'run', 'cap': cap, 'types': types, 'ops': ops}
+  case = {'kind': 'run', 'cap': cap, 'types': types, 'ops': ops}
+  if r.random() < 0.06:       # VARZ_PERCENTILES is configuration: other lists, also outside [0,1] (IndexError / negative index)
+    case['pcts'] = r.choice([[0.0, 0.25, 1.0], [0.5], [0.5, 1.5], [-0.5, 0.5], [1.0, 0.0], []])
+  return case
 
 
 def gen_reservoir(r, cap, nsrc, n, sel=3):
@@ -406,9 +409,10 @@ def _series_len(m_name):
   return 0
 
 
-def _reset(cap, types):
+def _reset(cap, types, pcts=None):
   V = _S['V']
   R = V.VarzReceiver
+  R.VARZ_PERCENTILES = list(_S['pcts0']) if pcts is None else list(pcts)
   R.VARZ_DATA.clear()
   R.VARZ_METRICS.clear()
   for m, ty in types:
@@ -426,6 +430,7 @@ def _restore():
   R.VARZ_METRICS.clear()
   R.VARZ_METRICS.update(_S['metrics0'])
   R._MAX_PERCENTILE_SIZE = 1000
+  R.VARZ_PERCENTILES = list(_S['pcts0'])
 
 
 def _do_tail_op(op):
@@ -581,7 +586,7 @@ def run_impl(case):
   V = _S['V']
   try:
     if k == 'run':
-      _reset(case['cap'], case['types'])
+      _reset(case['cap'], case['types'], case.get('pcts'))
       return {'steps': _run_ops(case), 'pcts': list(V.VarzReceiver.VARZ_PERCENTILES)}
     if k == 'e2e':
       o = _run_e2e(case)
@@ -722,26 +727,30 @@ def _check_dump(ref, dump, v, where):
       v.append(('series-lost', '%s: metric %s has updates but no data' % (where, m)))
 
 
-def _check_pcts_single(total, data, v, where):
+def _check_pcts_single(total, data, v, where, pcts=None):
   lo, hi = min(data), max(data)
   scale = max(abs(lo), abs(hi))
-  if 'pcts' not in total or len(total['pcts']) < 2:
+  if 'pcts' not in total or len(total['pcts']) < 1:
     v.append(('pct-shape', '%s: total %r' % (where, total)))
     return
   ps = total['pcts']
+  if pcts is not None and not all(0.0 <= p <= 1.0 for p in pcts):
+    return
   for x in ps:
     if x < lo - TOL * scale or x > hi + TOL * scale:
       v.append(('pct-bounds', '%s: reported %r outside retained samples [%r, %r]' % (where, x, lo, hi)))
       break
+  if pcts is not None and any(a > b for a, b in zip(pcts, pcts[1:])):
+    return
   for a, b in zip(ps[1:], ps[2:]):
     if b < a - TOL * scale:
       v.append(('pct-mono', '%s: percentiles decrease: %r' % (where, ps[1:])))
       break
 
 
-def _check_agg(ref, sel, o, v, where):
+def _check_agg(ref, sel, o, v, where, pcts=None):
   if 'exc' in o:
-    if all(ref.clean(m) for m in ref.cells if ref.types.get(m) is not None):
+    if all(ref.clean(m) for m in ref.cells if ref.types.get(m) is not None) and (pcts is None or all(0.0 <= p <= 1.0 for p in pcts)):
       v.append(('unexpected-exception', '%s: Aggregate raised %s on a well-typed history' % (where, o['exc'])))
     return
   raw = dict((m, dict((tuple(s), c) for s, c in srcs)) for m, srcs in o['raw'])
@@ -793,7 +802,7 @@ def _check_agg(ref, sel, o, v, where):
           continue
         if o['now'] - c['last'] >= 300:
           continue                      # a series not updated for MAX_AGG_AGE is reported as empty
-        _check_pcts_single(gotk[k][0], c['res'], v, '%s metric %s key %r' % (where, m, k))
+        _check_pcts_single(gotk[k][0], c['res'], v, '%s metric %s key %r' % (where, m, k), pcts)
 
 
 def _monitor_run(case, obs):
@@ -809,7 +818,7 @@ def _monitor_run(case, obs):
       continue
     if op[0] == 'A':
       _check_dump(ref, o['raw'], v, where)
-      _check_agg(ref, op[1], o, v, where)
+      _check_agg(ref, op[1], o, v, where, obs.get('pcts'))
       continue
     if op[0] == 'L':
       _t, kind, m, src, val, _j = op
